@@ -165,6 +165,9 @@ func c19Correspondence(c *hx.Ctx) {
 	if c19Extra != nil {
 		c19Extra(c)
 	}
+	if c19PosExtra != nil { // round-4 hooks (c19pos.go, build tag c19pos)
+		c19PosExtra(c)
+	}
 }
 
 func c19CbIdxCase(c *hx.Ctx, x0, width, pw, cbw int) {
@@ -397,6 +400,7 @@ func c04Correspondence(c *hx.Ctx) {
 
 var c04Extra func(*hx.Ctx)
 var c19Extra func(*hx.Ctx)
+var c19PosExtra func(*hx.Ctx)
 
 type c04BitRec struct{ bits []int }
 
